@@ -7,6 +7,7 @@
 From Coq Require Import ZArith List Bool.
 From Mpc Require Import Lang.Fold Lang.FoldProof Lang.FoldClassProof.
 Import ListNotations.
+From Mpc Require Gen.State Base.StateExpected Base.StateCheck Base.StatePkgs.
 Open Scope Z_scope.
 
 (* The property as stated — for every operator, every type intN/uintN, all
@@ -214,3 +215,16 @@ Theorem C12_calls_fold_independently : forall calls tbl names t n ps,
   res_map (fun c => do v <- eval (cex c); consumer_prep (item_of_call c) v) calls = Ok ps.
 Proof. exact calls_fold_independently. Qed.
 Print Assumptions C12_calls_fold_independently.
+
+(* STATE INVENTORY (finite obligation on the model regenerated from the source, checked by
+   computation).  The struct fields and package-level variables of the Go packages this
+   property is anchored in — compiler/ast, compiler/mpa, compiler/ssa — as emitted from /repo's current
+   source by harness/gen_state.go (Gen/State.v) are exactly those the models above were written
+   against (Base/StateExpected.v).  A new field or variable (a cache, a memo, a pool, a counter,
+   a changed field type) is state the models do not have: this obligation then breaks and the
+   property is no longer shown to hold until the change has been reviewed against the model. *)
+Theorem C12_state_inventory :
+  Mpc.Base.StateCheck.state_unchanged Mpc.Gen.State.state_inventory Mpc.Base.StateExpected.expected_state
+    Mpc.Base.StatePkgs.pkgs_C12 = true.
+Proof. vm_compute. reflexivity. Qed.
+Print Assumptions C12_state_inventory.
